@@ -614,7 +614,11 @@ impl PacketReceiver for IceConn {
                                 *probation_guard = None; // drop state
                                 drop(probation_guard);
 
-                                if win_addr != current_remote {
+                                // `current_remote` was read before this packet's source was
+                                // tentatively adopted above, so compare with the live value:
+                                // otherwise a winner equal to the old destination is never
+                                // written back and the latch commits on the last sender instead.
+                                if *self.remote_addr.read() != win_addr {
                                     *self.remote_addr.write() = win_addr;
                                 }
                                 self.rtp_latched.store(true, Ordering::Relaxed);
